@@ -31,6 +31,10 @@ CLAIM = dict(
 NO_TRANSLATE = 0x0800
 
 
+import re as _re
+GROUP_OMIT_RE = _re.compile(r"^(?:noback |nofor )?(?:context|correct|pass[234])\s+\S*[{}][A-Za-z]\S*\s+\S*\?", _re.M)
+
+
 def oracle(k):
     R = k.R
     bad = []
@@ -166,6 +170,10 @@ def run(tier):
             if not k.trace_ok:
                 trace_bad.append(k)
         for sig, what in oracle(k):
+            if sig == "complete:fwd" and GROUP_OMIT_RE.search(k.case.meta.get("text") or ""):
+                # the shape of finding F37: a rule that tests a grouping character and omits (`?`) makes removeGrouping
+                # rewrite the INPUT; lengths and positions are then reported relative to the rewritten input
+                sig += ":grouping-omit"
             v.violation("C04:%s" % sig, what + " | table=%s" % k.case.meta.get("table"),
                         {"script": k.case.setup + [k.op], "result": k.line[:3000]})
         if len(v.cov["samples"]) < 6 and k.R["ret"]:
